@@ -187,7 +187,8 @@ class Check:
         t_start = time.time()
         rng = self.rng.fork(st.name)
         cases = self.corpus_cases(st) + st.generate(rng, self.tier)
-        obs = C.harness_call(harness, st.sub, [st.go_case(c) for c in cases], timeout=st.harness_timeout) if st.sub else [None] * len(cases)
+        gcs = [st.go_case(c) for c in cases]            # exactly what the harness process saw, in this order
+        obs = C.harness_call(harness, st.sub, gcs, timeout=st.harness_timeout) if st.sub else [None] * len(cases)
         info = {"cases": len(cases), "model_bad": 0, "spec_bad": 0}
         dist = {}
         with self._lock:
@@ -215,7 +216,7 @@ class Check:
             if msg:
                 info["spec_bad"] += 1
                 if info["spec_bad"] <= 3:
-                    self.report_case(st, c, o, "direct oracle: " + msg, None)
+                    self.report_case(st, c, o, "direct oracle: " + msg, None, gc=gcs[i], prev=gcs[max(0, i - 400):i])
         bad_model, bad_spec = self.eval_cases(st, cases, obs)
         info["model_bad"] = len(bad_model)
         for i in sorted(set(bad_spec) | set(bad_model)):
@@ -239,7 +240,8 @@ class Check:
                 self.violation({"theorem_or_stream": "correspondence: " + st.name, "input": st.go_case(c), "observed": o, "expected": exp,
                                 "why": "model and implementation disagree on an input outside the property's domain"}, "no-failing-input-found")
                 continue
-            self.report_case(st, c, o, "implementation differs from %s" % ("specification" if st.spec_check else "model (proved equal to the specification)"), exp)
+            self.report_case(st, c, o, "implementation differs from %s" % ("specification" if st.spec_check else "model (proved equal to the specification)"), exp,
+                             gc=gcs[i], prev=gcs[max(0, i - 400):i])
         info["wall_s"] = round(time.time() - t_start, 1)
         self.cov["streams"][st.name] = info
         return info
@@ -248,13 +250,22 @@ class Check:
         k = st.known(c, o)
         return k is not None and any(f.get("key") == k and f.get("property") == self.pid and f.get("status") == "known" for f in C.known_findings())
 
-    def report_case(self, st, c, o, why, expected):
+    def report_case(self, st, c, o, why, expected, gc=None, prev=None):
         k = st.known(c, o)
         if k is not None and any(f.get("key") == k and f.get("property") == self.pid and f.get("status") == "known" for f in C.known_findings()):
             self.known_finding(k, next(f["what"] for f in C.known_findings() if f.get("key") == k and f.get("property") == self.pid))
             return
-        self.violation({"theorem_or_stream": st.name, "input": st.go_case(c), "observed": o, "expected": expected, "why": why,
-                        "how_to_replay": "./check %s --replay <this file>" % self.pid})
+        payload = {"theorem_or_stream": st.name, "input": gc if gc is not None else st.go_case(c), "observed": o, "expected": expected, "why": why,
+                   "how_to_replay": "./check %s --replay <this file>" % self.pid}
+        if prev and st.sub and getattr(st, "history_dependent", True):
+            # the calls that preceded this one in the same harness process (at most 400, at most 1 MB): the replay runs them
+            # first, in this order, so that a result that depends on what was computed before is reproduced
+            try:
+                if len(json.dumps(prev, default=str)) <= 1 << 20:
+                    payload["previous_inputs"] = prev
+            except Exception:
+                pass
+        self.violation(payload)
 
     def corpus_cases(self, st):
         d = os.path.join(C.VERIF, "corpus", self.pid)
